@@ -283,6 +283,11 @@ func (cw *cliWorld) c11CheckWire(fake *FakeSrv, from int, offset uint64, length 
 		if total+n > length {
 			cw.find("chunk-overrun", "io", "chunks cover %d bytes of a %d-byte buffer; chunks %v", total+n, length, chunks)
 		}
+		if k > 0 && total == length && !stopped {
+			// one operation: when every byte has been transferred there is
+			// nothing left to ask the file
+			cw.find("chunk-after-completion", "io", "chunk %d (%d bytes at %d) was sent although the %d bytes of the buffer had all been transferred; chunks %v", k, n, off, length, chunks)
+		}
 		// what did the server acknowledge?
 		acked := n
 		switch rep := r.Reply.(type) {
